@@ -27,4 +27,10 @@ theorem holds_test_chain_server_untouched (alive : Bool) (es : List Event) (rest
     (hne : ∀ es' ∈ es :: rest, ∀ e ∈ es', ∀ p, e ≠ .procDies p) : s.procs = (init (.reattach true) alive).procs :=
   test_chain_server_untouched _ facts_good alive es rest s h hne
 
+theorem server_facts_good : Facts.rpcServer.Good := by decide
+
+theorem holds_server_up_until_quit (h : List Lifecycle.ConnEv) :
+    Lifecycle.serverUp Facts.rpcServer h = !h.contains .quit :=
+  server_up_until_quit _ server_facts_good h
+
 end GoPlugin.Instance.C15
